@@ -679,6 +679,7 @@ func (q query) evalAgg(rows []*drow) []ansRow {
 					vals[i] = "0"
 				}
 			}
+		case "linear":
 		case "previous":
 			for i := range vals {
 				if nulls[i] {
